@@ -59,6 +59,7 @@ type c11Scenario struct {
 	Inject  int        `json:"injections"`
 	PollAccept bool    `json:"accept_polls_with_deadlines,omitempty"` // the accept loop sets a deadline before every Accept: none, a few ms ahead, or one that has already passed
 	ClockMs    uint32  `json:"clock_ms,omitempty"`                    // reading of the library's 32-bit millisecond clock when the scenario starts
+	NoReconnect bool   `json:"-"`                                     // runC19: leave out the reconnect stage (its wire decoders are keyed by address pair only)
 }
 
 func peerKey(addr net.Addr, conv uint32) string { return fmt.Sprintf("%s/%#x", addr.String(), conv) }
